@@ -355,14 +355,34 @@ func rigCorpus() {
 	add(func() ngapType.NGAPPDU { return ngapTestpacket.BuildCellTrafficTrace(1, 2) })
 	add(ngapTestpacket.BuildOverloadStop)
 	n := 0
-	for _, p := range pdus {
+	emit := func(p ngapType.NGAPPDU, label string) bool {
+		ok := false
+		limit := 4096
+		if label != "builder" {
+			limit = 700 // the fault space of one message grows with the square of its length
+		}
 		func() {
 			defer func() { recover() }()
 			b, err := ngap.Encoder(p)
-			if err == nil && len(b) > 0 && len(b) <= 4096 {
-				w.Log(world.Event{Ev: "corpus", I: n, UE: -1, Hex: hex.EncodeToString(b)})
+			if err == nil && len(b) > 0 && len(b) <= limit {
+				w.Log(world.Event{Ev: "corpus", I: n, UE: -1, Label: label, Hex: hex.EncodeToString(b)})
 				n++
+				ok = true
 			}
 		}()
+		return ok
 	}
+	for _, p := range pdus {
+		emit(p, "builder")
+	}
+	// every message type of the schema, smallest / largest / drawn variants (see schema.go)
+	sp, names := schemaPDUs(w.S.Seed, num(w.S.Rig, "schema_random", 2))
+	types, encoded := map[string]bool{}, 0
+	for i, p := range sp {
+		if emit(p, "schema:"+names[i]) {
+			types[names[i]] = true
+			encoded++
+		}
+	}
+	w.Log(world.Event{Ev: "schema", UE: -1, Info: hmap{"built": len(sp), "encoded": encoded, "message_types": len(types)}})
 }
